@@ -68,6 +68,11 @@ fn guarded<R>(res: &mut CaseResult, what: &str, f: impl FnOnce() -> R) -> Option
 }
 
 pub fn run_case(ctx: &mut CaseCtx) -> CaseResult {
+    // zones with daylight-saving time: histories in the repeated hour, files stamped with a
+    // skipped hour (child process; the scenario of C06's DST children, here for "no panic")
+    if ctx.case % 32 == 13 {
+        return crate::p_c06::dst_case_for(ctx, "C10");
+    }
     match ctx.case % 8 {
         0 | 1 => targets_case(ctx),
         2 | 3 | 4 => filespec_case(ctx),
@@ -877,6 +882,9 @@ impl std::fmt::Display for Inner {
 }
 
 pub fn child_main(a: &ChildArgs) -> i32 {
+    if a.role == "dst" {
+        return crate::p_c06::child_main(a);
+    }
     let kind = a.x("kind").unwrap_or("file-direct");
     let fs = FileSpec::default()
         .directory(a.dir.join("out"))
